@@ -60,7 +60,8 @@ AddUnit ==
        cur' = [cur EXCEPT !.body = Append(@, u)]
   /\ UNCHANGED <<lib, use, stage>>
 CloseMacro ==
-  /\ stage = "build" /\ cur # << >> /\ cur.body # << >>
+  \* (a body may be empty: the macro then stands for nothing)
+  /\ stage = "build" /\ cur # << >>
   /\ lib' = Append(lib, cur) /\ cur' = << >>
   /\ UNCHANGED <<use, stage>>
 ChooseUse ==
